@@ -77,7 +77,7 @@ def shards(tier):
 
 def required_counters(tier):
     return {'judged:count': 150, 'judged:class': 400, 'judged:frame': 400, 'judged:position': 400, 'judged:size': 300,
-            'judged:angle': 60, 'judged:include': 400, 'judged:flag': 300, 'judged:text': 60, 'judged:tag': 60,
+            'judged:angle': 60, 'judged:include': 400, 'judged:flag': 300, 'judged:text': 60, 'judged:tag': 60, 'judged:fill': 100,
             'judged:frameless-no-region': 15, 'judged:skip-warns': 30, 'judged:neighbours-unaffected': 30,
             'judged:multi-annulus': 30, 'seen:colon-hours': 20, 'seen:colon-degrees-lon': 10, 'seen:excluded': 50,
             'seen:composite-member': 20, 'judged:skip-no-region': 30,
@@ -302,8 +302,8 @@ def noise_props(rng, shape):
     if rng.random() < 0.3:
         out.append(('font', '"' + rng.choice(['helvetica 10 normal roman', 'times 12 bold roman', 'courier 14 normal italic',
                                              'helvetica 10 bold', 'times 9']) + '"'))
-    if rng.random() < 0.1 and shape in ('circle', 'ellipse', 'box', 'polygon'):
-        out.append(('fill', rng.choice(['0', '1'])))
+    if rng.random() < 0.2 and shape in ('circle', 'ellipse', 'box', 'polygon'):
+        out.append(('fill', rng.choice(['0', '1', '1'])))
     if shape == 'point' and rng.random() < 0.7:
         out.append(('point', rng.choice(['circle', 'box', 'diamond', 'cross', 'x', 'arrow', 'boxcircle'])
                     + rng.choice(['', '', ' 7', ' 12'])))
@@ -903,8 +903,9 @@ def model(items):
                             if f in level:
                                 flags[f] = level[f]
                                 break
+                    fill = next((level['fill'] for level in (own, comp, glob) if 'fill' in level), None)
                     for r in regs:
-                        r.update(frame=frame, include=inc, flags=flags, tags=tags, item=idx, shape=it['shape'],
+                        r.update(frame=frame, include=inc, flags=flags, tags=tags, item=idx, shape=it['shape'], fill=fill,
                                  text=prop_text_value(own['text']) if 'text' in own else None,
                                  inc_src=('prop' if 'include' in own else 'sign' if it['sign'] else
                                           'global' if 'include' in glob else 'default'),
@@ -1183,6 +1184,12 @@ def compare_region(obs, e, reg, case):
                 key = {'unsupported-shape': K_COMP_US, 'text-with-bars': K_COMP_BARS}.get(e['ended'][1], 'composite-properties-leak-past-end')
             obs.violation(key, f"{e['cls']}: {f}={meta.get(f)!r}, expected {e['flags'].get(f, 'absent/default')} "
                           f"(region > composite > global)", text=case.get('_text'))
+    # fill=1 makes a filled region of the four shapes DS9 can fill (circle, ellipse, box, polygon - not their annulus expansions)
+    if e.get('fill') is not None and 'Annulus' not in e['cls']:
+        want = e['fill'] == '1' and e['shape'] in ('circle', 'ellipse', 'box', 'polygon')
+        gotf = bool(dict(reg.visual).get('fill', False))
+        obs.check(gotf == want, 'fill-property-wrong', f"{e['cls']} ({e['shape']} line): fill={e['fill']} gives visual fill={dict(reg.visual).get('fill')!r}", 'fill',
+                  text=case.get('_text'))
     # tags
     gtags = meta.get('tag', [])
     if e['tags'] or gtags:
